@@ -104,6 +104,11 @@ OpOk ==
          THEN /\ ents' = ents \cup {[k |-> Ev.k, e |-> Ev.e, v |-> Ev.v]} /\ now' = Ev.t
               /\ After(Ev.t, ents')
          ELSE Unchanged /\ Breach(<<"insert outside the contract", Ev.k, Ev.e, Ev.t, now>>)
+    [] Ev.op = "bulk" ->         \* scale runs: insert(k, value k, expiration e, time t) for every k in lo..hi, observed as one call
+         IF R!CanBulk(Ev.lo, Ev.hi, Ev.e, Ev.t)
+         THEN /\ ents' = ents \cup R!BulkSet(Ev.lo, Ev.hi, Ev.e) /\ now' = Ev.t
+              /\ After(Ev.t, ents')
+         ELSE Unchanged /\ Breach(<<"bulk insert outside the contract", Ev.lo, Ev.hi, Ev.e, Ev.t, now>>)
     [] Ev.op \in {"lt", "le", "by", "get"} ->
          IF R!CanQuery(Ev.t)
          THEN /\ ents' = ents /\ now' = Ev.t
@@ -128,7 +133,7 @@ OpOk ==
          IF R!CanQuery(Ev.t)
          THEN /\ ents' = ents /\ now' = Ev.t
               /\ V("EXPORT", Ev.res = R!RefExport(Ev.t), <<"t", Ev.t, "exported", Ev.res, "reference", R!RefExport(Ev.t)>>)
-              /\ LET n == IF hasSnap THEN Count(T) ELSE Cardinality(ents)
+              /\ LET n == IF hasSnap /\ ~stale THEN Count(T) ELSE Cardinality(ents)    \* no current snapshot: everything inserted since the last clear
                  IN V("EXPCAP", Ev.vcap <= 8 * n + 64, <<"capacity", Ev.vcap, "stored entries", n>>)
          ELSE Unchanged /\ Breach(<<"time went backwards", Ev.t, now>>)
     [] Ev.op = "exportn" ->      \* sizes driver: n live entries inserted into a fresh collection, then exported
@@ -161,7 +166,7 @@ ModelNext ==
 SameArena(A, B) == A.root = B.root /\ A.ucap = B.ucap /\ Len(A.nd) = Len(B.nd) /\ Len(A.free) = Len(B.free)
                    /\ (\A i \in 1..Len(A.nd) : A.nd[i] = B.nd[i]) /\ (\A i \in 1..Len(A.free) : A.free[i] = B.free[i])
 DriftCheck ==
-  hasSnap /\ Has("snap") /\ ~stale /\ Ev.out = "ok" /\ Ev.op # "export" /\ WellFormed(T) /\ PoolOK(T)
+  hasSnap /\ Has("snap") /\ ~stale /\ Ev.out = "ok" /\ Ev.op \notin {"export", "bulk"} /\ WellFormed(T) /\ PoolOK(T)
      => Drift(SameArena(ModelNext, T'), Ev.op)
 
 StepOp ==
